@@ -470,10 +470,8 @@ def prove(snapshot, goal, timeout_ms=10000, rounds=3, use_cvc5=False, validate=T
     neg = z3.Not(goal)
     t_start = time.time()
     if SLOW[0] <= 0:
-        r = check_ematch(facts, qfacts, bounds, [neg], min(timeout_ms, 2000))
-        if r.status not in ("unsat", "sat"):
-            r.reason = "slow-query budget of the task used up"
-        return r
+        return Result("unknown", None, len(facts) + len(qfacts), 0.0, backend="z3-ematch",
+                      reason="slow-query budget of the task used up")
     r = check_ematch(facts, qfacts, bounds, [neg], timeout_ms)
     if r.status in ("unsat", "sat"):
         return r
